@@ -1,5 +1,5 @@
 """C12 - a failed edit leaves the target tree untouched and still editable."""
-from contracts import k_modifying, k_order
+from contracts import k_modifying, k_order, k_options
 from pyvc.contract import verify_all
 from pyvc import native
 
@@ -8,6 +8,7 @@ def run(rep, tier, seed):
     verify_all(rep, k_modifying.specs('C12'))
     k_modifying.usage_structural(rep, 'C12')
     k_order.c12_handlers(rep, 'C12')
+    k_options.validators_finite(rep, 'C12')   # an out-of-range option value is screened before the edit starts
     k_order.c10_order(rep, 'C12')   # the raw path: parse / locate before the first splice into the real tree
     sec = native.run('b_edit', 'main', {'props': ['C12'], 'tier': tier, 'seed': seed,
                                         'ops': ['remove', 'donor', 'slice', 'views', 'optional', 'badopts'], 'norm': True})
